@@ -331,3 +331,10 @@ Proof.
     intros nd inner [<-|[<-|[]]] Ei; cbn in Ei; discriminate.
   - intros k Hk Hn. vm_compute in Hk, Hn. repeat (destruct Hk as [<-|Hk]; [repeat (destruct Hn as [Hn|Hn]; [discriminate|]); destruct Hn|]). destruct Hk.
 Qed.
+
+(* pipelines without nested functions: nwf is unique outputs + consistent defaults *)
+Lemma nwf_lift p : NoDup (all_outputs p) -> consistent_defaults p = true -> nwf (lift p).
+Proof.
+  intros N C. constructor; rewrite ?funcs_lift; [exact N|exact C|].
+  intros nd inner Hin Ei. unfold lift in Hin. apply in_map_iff in Hin as (f & <- & _). discriminate.
+Qed.
